@@ -1263,3 +1263,12 @@ func callOfValue(v ssa.Value) (c *ssa.Call, idx int) {
 	}
 	return nil, 0
 }
+
+func sortFuncs(fs []*ssa.Function) {
+	sort.Slice(fs, func(i, j int) bool {
+		if fs[i].Pos() != fs[j].Pos() {
+			return fs[i].Pos() < fs[j].Pos()
+		}
+		return fs[i].String() < fs[j].String()
+	})
+}
